@@ -1628,7 +1628,7 @@ Proof.
 Qed.
 
 (* ---- destroy: whatever is still open is closed; the table is what it was before the handle existed ---- *)
-Theorem reproc_destroy_restores T c p w u w' : HI T c p w -> reproc_destroy p w = Ret u w' -> pr_fds (curp w') = T.
+Lemma reproc_destroy_fq T c p w u w' : HI T c p w -> reproc_destroy p w = Ret u w' -> fqn T [] c w'.
 Proof.
   intros H E. unfold reproc_destroy in E.
   apply bind_inv in E as (p1 & w1 & E1 & E).
@@ -1652,9 +1652,10 @@ Proof.
   cbn [app] in H5.
   apply bind_inv in E as (u5 & w6 & E6 & E). rewrite Ho in E6. destruct (destroy_invalid _ _ _ _ eq_refl E6) as [_ ->].
   apply bind_inv in E as (u6 & w7 & E7 & E). rewrite He in E7. destruct (destroy_invalid _ _ _ _ eq_refl E7) as [_ ->].
-  pose proof (N_neutral _ _ _ _ _ _ _ (fc_sys_free _) H5 E) as [H8 _].
-  exact (fq_end _ _ _ _ H8 (fun x X => X)).
+  exact (N_neutral _ _ _ _ _ _ _ (fc_sys_free _) H5 E).
 Qed.
+Theorem reproc_destroy_restores T c p w u w' : HI T c p w -> reproc_destroy p w = Ret u w' -> pr_fds (curp w') = T.
+Proof. intros H E. exact (fq_end _ _ _ _ (proj1 (reproc_destroy_fq _ _ _ _ _ _ H E)) (fun x X => X)). Qed.
 
 (* ================= 9. block numbers only grow (so that 0 stays the null pointer across calls) ================= *)
 Definition nkpost (w w' : world) : Prop := wf w' /\ w_cur w' = w_cur w /\ w_next_blk w <= w_next_blk w'.
@@ -1986,6 +1987,20 @@ Proof.
   destruct (h_status p =? STATUS_IN_CHILD). { apply ret_inv in E as [E ->]. injection E as _ ->. exact H. }
   destruct (h_status p =? STATUS_NOT_STARTED). { apply ret_inv in E as [E ->]. injection E as _ ->. exact H. }
   cbv zeta in E. exact (HN_stop_loop _ _ _ _ _ _ _ _ _ H E).
+Qed.
+
+Lemma HN_reproc_destroy T c p w u w' : HN T c p w -> reproc_destroy p w = Ret u w' -> fqn T [] c w' /\ NB w'.
+Proof.
+  intros H E. split; [exact (reproc_destroy_fq _ _ _ _ _ _ (proj1 H) E)|].
+  unfold reproc_destroy in E. apply bind_inv in E as (p1 & w1 & E1 & E).
+  assert (H1 : HN T c p1 w1).
+  { destruct (h_status p =? STATUS_IN_PROGRESS).
+    - apply bind_inv in E1 as ([r0 p0] & w0 & E0 & E1). apply ret_inv in E1 as [-> ->]. exact (HN_reproc_stop _ _ _ _ _ _ _ _ H E0).
+    - apply ret_inv in E1 as [-> ->]. exact H. }
+  assert (Hnk : nk (pipe_destroy (h_in p1) ;> pipe_destroy (h_out p1) ;> pipe_destroy (h_err p1) ;> pipe_destroy (Lib.h_exit p1) ;>
+                    pipe_destroy (h_cout p1) ;> pipe_destroy (h_cerr p1) ;> sys_free (h_blk p1))).
+  { repeat (apply nk_bind; [apply nk_pc, pc_pipe_destroy|intros _]). apply nk_pc, pc_sys_free. }
+  destruct (nk_run _ _ _ _ Hnk ltac:(apply H1) E) as (_ & _ & B). destruct H1 as [_ N1]. unfold NB in *. lia.
 Qed.
 
 (* start on a handle between calls *)
